@@ -3,10 +3,10 @@ package core
 import (
 	"fmt"
 	"go/constant"
-	"path/filepath"
 	"go/token"
 	"go/types"
 	"math/big"
+	"path/filepath"
 	"sort"
 	"strings"
 
@@ -35,6 +35,7 @@ type Exec struct {
 	prune       bool
 	clsStructs  map[*types.Named]bool
 	frameTs     []modTarget
+	witnesses   map[Sort][]Term
 	constFV     map[*ssa.FreeVar]Value // captured variables no closure writes: constant during one invocation
 }
 
@@ -51,6 +52,7 @@ func (x *Exec) initialState() *State {
 	}
 	s.Frontier = x.C.Declare("R0", SInt)
 	x.C.Assume(App(SBool, "<", IntLit(int64(x.E.firstDynRef)), s.Frontier))
+	s.IterFrontier = s.Frontier
 	return s
 }
 
@@ -574,12 +576,13 @@ func (x *Exec) instr(fr *frame, s *State, in ssa.Instruction) {
 		x.call(fr, s, in)
 	case *ssa.Go:
 		x.C.Abstracted["go statement (goroutine body is its own unit)"]++
+		var goArgs []Value
 		for _, a := range in.Call.Args {
-			x.operand(fr, s, a)
+			goArgs = append(goArgs, x.operand(fr, s, a))
 		}
 		// the spawn itself is an observable event: ghost clauses of the spawned function's contract apply
 		if callee := in.Call.StaticCallee(); callee != nil {
-			x.atCallCheck(fr, s, "go "+x.E.fnKey(callee))
+			x.atCallCheck(fr, s, "go "+x.E.fnKey(callee), goArgs)
 			if ct := x.E.contractFor(callee); ct != nil && len(ct.Ghost) > 0 {
 				env := &specEnv{x: x, fn: callee, st: s, names: map[string]Value{}}
 				for _, g := range ct.Ghost {
@@ -1789,7 +1792,7 @@ func (x *Exec) atSend(fr *frame, s *State, sent Value, pos token.Pos) {
 		env := x.invEnv(fr, s).with("sent", sent)
 		ac.Hits++
 		x.obligeKnown(env, fmt.Sprintf("%s#atsend%d.%d", x.C.Unit, k, x.bump(fr, fmt.Sprintf("atsend%d", k))), "atsend",
-			x.pos(pos), "before the send: "+ac.Text, s.Reach, env.evalBool(ac.Expr))
+			x.pos(pos), "before the send: "+ac.Text, s.Reach, env.evalGoal(ac.Expr))
 	}
 }
 
@@ -1815,7 +1818,7 @@ func (x *Exec) atReturn(fr *frame, s *State, rv []Value) {
 					panic(r)
 				}
 			}()
-			return env.evalBool(ac.Expr), true
+			return env.evalGoal(ac.Expr), true
 		}()
 		if !ok {
 			continue
